@@ -192,7 +192,7 @@ class AssocModel(object):
         nfn = repo.nfunc('xtuml.meta:MetaModel.define_association')     # normal form: one spelling of the dict building
         for node, env in pm.find('_L.key_map = _V', nfn):
             v = resolve_locals(nfn, env['_V'])
-            m2 = pm.match('dict(zip(_A, _B))', v)
+            m2 = pm.match('dict(zip(_A, _B))', v) or pm.match('dict(zip(_A, _B, strict=_S))', v)   # strictness does not change the pairs
             if m2 is None:
                 continue
             env = dict(env, **m2)
